@@ -98,6 +98,7 @@ type config struct {
 	ops      []opDef
 	lockstep bool // a replica that applies every request right after the primary and is never reopened
 	cold     bool // a replica that is closed and reopened before every request
+	hard     bool // reopening closes and reopens Pebble too (else only the kv.DB layer on the open engine)
 	nQuick   int  // the quick tier searches the first nQuick operations of the alphabet (0 = all)
 	// memo: histories whose last step has passed the stream oracles. seqx replays the (validated)
 	// prefix on a fresh instance for every successor; the subscriber simulation and the model
@@ -191,9 +192,9 @@ type store struct {
 	clock time2.Clock
 }
 
-// keepOpenFactory: the quick tier restarts only the database layer (kv.DB with its in-memory
-// state: version id counter, notification tracker, whatever a request leaves behind) on the
-// storage engine that stays open; the thorough tier closes and reopens Pebble as well.
+// keepOpenFactory: the "refusals" alphabet restarts only the database layer (kv.DB with its
+// in-memory state: version id counter, notification tracker, whatever a request leaves behind) on
+// the storage engine that stays open; "refusals-hard" (thorough tier) closes and reopens Pebble as well.
 type keepOpenFactory struct {
 	kv.Factory
 	cur *keepOpenKV
@@ -221,9 +222,7 @@ func (f *keepOpenFactory) Close() error {
 	return f.Factory.Close()
 }
 
-var hardReopen = os.Getenv("VERIF_TIER") == "thorough" || os.Getenv("VERIF_C17_HARD_REOPEN") != ""
-
-func newStore(name string, clock time2.Clock) *store {
+func newStore(name string, clock time2.Clock, hardReopen bool) *store {
 	dir := fmt.Sprintf("/verifmem/c17-%d", storeCtr.Add(1))
 	fsReg.Store(dir, vfs.NewMem())
 	var f kv.Factory
@@ -262,13 +261,13 @@ func (s *store) close() {
 func newInst(cfg *config) *inst {
 	in := &inst{cfg: cfg, clock: &time2.MockedClock{}, now: t0Millis, recs: map[string]rec{}, sessId: -1, leftover: map[string]bool{}}
 	in.clock.Set(in.now)
-	in.stores = []*store{newStore("primary", in.clock)}
+	in.stores = []*store{newStore("primary", in.clock, true)}
 	in.db = in.stores[0].db
 	if cfg.lockstep {
-		in.stores = append(in.stores, newStore("replica", &time2.MockedClock{}))
+		in.stores = append(in.stores, newStore("replica", &time2.MockedClock{}, true))
 	}
 	if cfg.cold {
-		in.cold = newStore("reopened replica", &time2.MockedClock{})
+		in.cold = newStore("reopened replica", &time2.MockedClock{}, cfg.hard)
 		in.stores = append(in.stores, in.cold)
 	}
 	return in
@@ -422,7 +421,8 @@ func buildRefusalOps() []opDef {
 var (
 	cfgSeq     = &config{name: "db+replica", ops: buildOps(), lockstep: true}
 	cfgRefusal = &config{name: "refusals", ops: buildRefusalOps(), cold: true, nQuick: 11}
-	configs    = []*config{cfgRefusal, cfgSeq}
+	cfgRefHard = &config{name: "refusals-hard", ops: buildRefusalOps(), cold: true, hard: true} // thorough tier only
+	configs    = []*config{cfgRefusal, cfgRefHard, cfgSeq}
 )
 
 // ---------------------------------------------------------------------------------------------
@@ -1076,8 +1076,9 @@ func (in *inst) step(op int) (bool, *ev.Violation) {
 	}
 	if v, culprit := checkBatch(bs[0], e, off, ts); v != nil {
 		if v.Key != keySameStart {
-			if in.leftover[culprit] {
+			if in.leftover[culprit] && v.Key == "spurious-notification:put" {
 				// the entry is what a request that was refused as a whole had done before it was refused
+				// (only puts can precede the refusing operation)
 				v.Key += ":left-by-refused-request"
 			}
 			if in.anyRefused() {
@@ -1214,18 +1215,24 @@ func main() {
 	depth := map[*config]int{cfgRefusal: 4, cfgSeq: 4}
 	budget := map[*config]time.Duration{cfgRefusal: 30 * time.Second, cfgSeq: 45 * time.Second}
 	if run.Tier == "thorough" {
-		depth = map[*config]int{cfgRefusal: 5, cfgSeq: 6}
-		budget = map[*config]time.Duration{cfgRefusal: 6 * time.Minute, cfgSeq: 11 * time.Minute}
+		depth = map[*config]int{cfgRefusal: 5, cfgRefHard: 4, cfgSeq: 6}
+		budget = map[*config]time.Duration{cfgRefusal: 5 * time.Minute, cfgRefHard: 2 * time.Minute, cfgSeq: 10 * time.Minute}
 	}
 	if d := os.Getenv("VERIF_DEPTH"); d != "" {
 		var n int
 		fmt.Sscanf(d, "%d", &n)
-		depth = map[*config]int{cfgRefusal: n, cfgSeq: n}
+		for c := range depth {
+			depth[c] = n
+		}
 	}
 	only := os.Getenv("VERIF_C17_ONLY") // debugging: run one alphabet
+	startAll, total := time.Now(), time.Duration(0)
+	for _, b := range budget {
+		total += b
+	}
 	var states int64
 	for _, cfg := range configs {
-		if only != "" && only != cfg.name {
+		if depth[cfg] == 0 || (only != "" && only != cfg.name) {
 			continue
 		}
 		cfg.memoUpTo = depth[cfg]
@@ -1233,7 +1240,11 @@ func main() {
 		if run.Tier != "thorough" && cfg.nQuick > 0 && os.Getenv("VERIF_C17_ALLOPS") == "" {
 			nOps = cfg.nQuick
 		}
-		sp := spec(cfg, nOps, depth[cfg], time.Now().Add(budget[cfg]))
+		deadline := time.Now().Add(budget[cfg])
+		if cfg == configs[len(configs)-1] && only == "" {
+			deadline = startAll.Add(total) // the last search also gets what the earlier ones did not use
+		}
+		sp := spec(cfg, nOps, depth[cfg], deadline)
 		res := seqx.Explore(sp)
 		seqx.Report(run, sp, res)
 		states += res.States
@@ -1290,9 +1301,9 @@ func main() {
 	run.Sample(map[string]any{"history": []string{"put(a)", "put(a)", "deleteRange[a,c)", "trim(oldest stored batch expires)"},
 		"expected": "batch 0 may disappear, a subscriber resuming at 1 still gets 1 and 2: {a: KEY_MODIFIED v1}, {a: KEY_RANGE_DELETED last=c}"})
 	run.Sample(map[string]any{"history": []string{"delete(b)"}, "expected_batches": []string{"{} (empty batch at offset 0)"}})
-	run.Sample(map[string]any{"history": []string{"seqPut(s,[1,1])", "put(a)+seqPut(s,[1])", "put(b)"},
-		"expected_batches": []string{"{s-…01-…01: KEY_CREATED v0}", "none: refused as a whole (missing sequence deltas) after put(a) was processed", "{b: KEY_CREATED v1}"},
-		"on":               "live DB, lock-step replica, replica reopened before every request"})
+	run.Sample(map[string]any{"config": "refusals", "history": []string{"seqPut(s,[1,1])", "put(a)+seqPut(s,[1])", "delete(a)"},
+		"expected_batches": []string{"{s-…01-…01: KEY_CREATED v0}", "none: refused as a whole (missing sequence deltas) after put(a) was processed", "{} (a was never written)"},
+		"on":               "live DB and a replica reopened before every request that applies the refused entry again"})
 	run.Assume = []string{
 		"stage 1 is sequential: every request handed to ProcessWrite is in the committed log (uncommitted requests and subscriber/writer races are stage 2)",
 		"a request that ProcessWrite refuses as a whole with an error for which kv.IsInvalidRequestError holds (the leader answers the client with the error, every replica skips the entry) is not a committed change: its offset has no batch and nothing of it may show up in a later batch",
